@@ -536,7 +536,7 @@ func (m *Model) Apply(op *Op, out *Outcome) []Complaint {
 		if op.IDLit == "" && op.H >= 0 && op.H < len(m.Handles) {
 			si = m.Handles[op.H]
 		}
-		if si < 0 && op.IDLit != "" {
+		if si < 0 && op.IDLit != "" && op.IDLit != EmptyID {
 			if i, ok := m.Lit[op.Repo+"\x00"+op.IDLit]; ok {
 				si = i
 			}
@@ -546,10 +546,13 @@ func (m *Model) Apply(op *Op, out *Outcome) []Complaint {
 			if out.OK {
 				m.Sessions = append(m.Sessions, &Session{Repo: op.Repo, Pending: op.Offset})
 				m.setHandle(out.Handle, len(m.Sessions)-1)
-				if m.Lit == nil {
-					m.Lit = map[string]int{}
+				// the empty id names no session: a registry that accepts it starts a fresh upload each time
+				if op.IDLit != EmptyID {
+					if m.Lit == nil {
+						m.Lit = map[string]int{}
+					}
+					m.Lit[op.Repo+"\x00"+op.IDLit] = len(m.Sessions) - 1
 				}
-				m.Lit[op.Repo+"\x00"+op.IDLit] = len(m.Sessions) - 1
 			}
 			break
 		}
